@@ -120,7 +120,7 @@ class Run:
         src = os.path.join(VERIF, 'inst', inst + '.cpp')
         js = os.path.join(self.work, tag + '.json')
         t0 = time.time()
-        cmdline = ' '.join(['clang++'] + CLANG_FLAGS + ['-D' + d for d in defines] + ['-fsyntax-only', '-Xclang', '-ast-dump=json', src])
+        cmdline = ' '.join(['clang++'] + CLANG_FLAGS + ['-D' + d for d in defines if d != '__VERIF_NOSPEC__'] + ['-fsyntax-only', '-Xclang', '-ast-dump=json', src])
         p = subprocess.run(['bash', '-c', cmdline + ' > ' + js], stderr=subprocess.PIPE, timeout=900)
         if p.returncode != 0:
             raise Undecided('clang failed on %s: %s' % (src, p.stderr.decode('utf-8', 'replace')[-2000:]))
@@ -129,7 +129,18 @@ class Run:
         structs = os.path.join(self.work, tag + '.structs.h')
         specs = []
         sp = os.path.join(VERIF, 'contracts', inst + '.spec')
-        if os.path.exists(sp): specs += ['--spec', sp]
+        nospec = '__VERIF_NOSPEC__' in defines
+        defines = tuple(x for x in defines if x != '__VERIF_NOSPEC__')
+        if os.path.exists(sp) and not nospec: specs += ['--spec', sp]
+        if os.path.exists(sp) and nospec:
+            # bounded fallback: only the prelude of the sidecar file (includes / macros), no function or loop annotations
+            pre = []
+            for ln in open(sp).read().split('\n'):
+                if ln.strip().startswith('@'): break
+                pre.append(ln)
+            spn = os.path.join(self.work, tag + '.prelude.spec')
+            open(spn, 'w').write('\n'.join(pre) + '\n')
+            specs += ['--spec', spn]
         ap_ = os.path.join(self.work, inst + '.auto.spec')
         if os.path.exists(ap_): specs += ['--spec', ap_]
         cmd = [sys.executable, os.path.join(VERIF, 'engine', 'cxx2c.py'), js, '--main-file', src,
@@ -883,6 +894,34 @@ def _main(a, pid, run, seed, t0):
         if t['status'] == 'MISMATCH':
             raise Undecided('translation validation: generated C disagrees with the real C++ code for %s: %s' % (t['inst'], t['detail']))
 
+    # ---- bounded fallback: a unit whose proof could not even be attempted because the code changed shape (a new loop without
+    #      contract, sidecar invariants that no longer compile, a must-fire rule) is re-run WITHOUT the sidecar annotations as a
+    #      bounded model check of the wrapper (assume pre_, all loops unwound, assert post_).  Only a native-replay-confirmed
+    #      counterexample turns this into a VIOLATION; a bounded pass leaves the unit undecided.
+    unit_by_name = dict((u.name, u) for u in units)
+    for i_, r in enumerate(results):
+        if r['status'] != 'undecided': continue
+        why = r.get('why', '')
+        if not re.search(r'code loop without loop contract|goto-cc failed|must-fire|goto-instrument failed|annotates loop', why): continue
+        u = unit_by_name[r['unit']]
+        if u.lemma or u.plain or not str(u.target).startswith('verif_'): continue
+        hdr = hdrs.get(u.inst, {})
+        if u.target not in hdr.get('post', {}): continue
+        import copy
+        fu = copy.copy(u)
+        fu.plain = True; fu.bounded = 'fallback: all loops unwound %d times' % (u.unwind or 10)
+        fu.unwind = u.unwind or 10; fu.unwind_loops = {'.': u.unwind or 10}; fu.replace = []
+        fu.defines = list(u.defines) + ['__VERIF_NOSPEC__']; fu.timeout = min(u.timeout or 600, 600); fu.object_bits = u.object_bits or 12
+        fu.name = u.name
+        ap0 = os.path.join(run.work, u.inst + '_nospec.auto.spec')
+        fr = run.run_unit(fu)
+        if fr['status'] == 'failed':
+            fr['fallback_of'] = why
+            fr['needs_confirmation'] = True
+            results[i_] = fr
+        else:
+            r['why'] = why + ' | bounded fallback (no sidecar annotations, loops unwound %d): %s' % (fu.unwind, fr['status'] if fr['status'] != 'undecided' else fr.get('why', '')[:200])
+
     # ---- lemmas
     lemma_results = []
     for lm in getattr(prop, 'LEMMAS', []):
@@ -954,6 +993,11 @@ def _main(a, pid, run, seed, t0):
                    'inputs': inputs, 'ghosts': gvals, 'native_replay': verdict, 'native_output': out,
                    'verifier': 'cbmc 6.11 (dfcc contracts)', 'checker_cmd': r.get('checker_cmd'),
                    'cbmc_trace_excerpt': trace_excerpt(fl.get('trace'))}, open(rp, 'w'), indent=1)
+        if r.get('needs_confirmation') and verdict != 'confirmed':
+            # bounded fallback without a natively confirmed input stays undecided
+            r['status'] = 'undecided'; r['why'] = 'proof not attempted (%s); bounded fallback failed an obligation but no failing input was confirmed natively' % r.get('fallback_of', '')[:200]
+            undecided.append(r)
+            continue
         violations.append((r, rp, verdict))
 
     mut_results = []
